@@ -201,16 +201,6 @@ def classify(rows, goals, dtype, got, exp, path):
     # float32 row sums (per group, over the optimised columns) as the sum-sort sees them
     try:
         obj, groups = rp.objective_matrix(view, goals)
-        with np.errstate(all="ignore"):
-            sums = obj.sum(axis=1).astype(np.float32)
-        if np.isinf(sums).any():
-            return "row_sum_overflows_float32"
-        n = len(rows)
-        for i in range(n):
-            for k in range(n):
-                if i != k and groups[i] == groups[k] and sums[i] == sums[k] \
-                        and (obj[i] <= obj[k]).all() and (obj[i] < obj[k]).any():
-                    return "row_sum_tie_hides_dominance"
         if cast_changed:
             # dominance on the float32 view, duplicates on the stored rows
             m = rp.pareto_mask(view, goals, distinct=False)
@@ -221,6 +211,16 @@ def classify(rows, goals, dtype, got, exp, path):
                 seen.add(tuple(r))
             if m == got:
                 return "non_float32_values_compared_in_float32"
+        with np.errstate(all="ignore"):
+            sums = obj.sum(axis=1).astype(np.float32)
+        if np.isinf(sums).any():
+            return "row_sum_overflows_float32"
+        n = len(rows)
+        for i in range(n):
+            for k in range(n):
+                if i != k and groups[i] == groups[k] and sums[i] == sums[k] \
+                        and (obj[i] <= obj[k]).all() and (obj[i] < obj[k]).any():
+                    return "row_sum_tie_hides_dominance"
     except Exception:
         pass
     # direct path: fast_pareto_mask negates 'max' columns in place when no prime goals are present;
